@@ -38,6 +38,8 @@ CLASSES = {
 
 
 def cp_in_class(name, cls):
+    if isinstance(cls, int):  # a concrete code point: lets a job carry a long sequence without symbolic name hashing
+        return cls
     if cls == "L":
         v = core.integer(name, 65, 122)
         core.assume(core.sym_or(v <= 90, v >= 97))
@@ -452,6 +454,11 @@ def jobs(tier):
     shapes = [(("x5",),), (("x5", "x4"),), (("x5", "x4"), ("x5",)), (("L", "x5"), ("x4",))]
     if tier != "quick":
         shapes += [(("L", "x5"), ("x5", "x4", "x5")), (("x2", "x4"), ("x5", "x4"), ("L",))]
+    # sequence LENGTH is what decides whether a rule is written: long sequences of concrete code points (4..14) next
+    # to a short symbolic one
+    long_seq = lambda n: tuple([0x1F468, 0x1F3FB, 0x200D, 0x2764, 0xFE0F, 0x200D, 0x1F48B, 0x200D, 0x1F469, 0x1F3FC, 0xE0067, 0xE0062, 0xE007F, 0x1F9B0][:n])
+    for n in ((5, 11, 14) if tier == "quick" else range(4, 15)):
+        js.append(Job(f"fea[{n} concrete code points + (x5,x4)]", job_fea, shape=(long_seq(n), ("x5", "x4"))))
     for sh in shapes:
         js.append(Job(f"fea[{sh}]", job_fea, shape=sh))
     # blanks
